@@ -14,7 +14,11 @@ import (
 // prefix-related siblings, dots, spaces, non-ASCII, pipeline suffixes, one long name.
 var Universe = []string{"a", "b", "ab", "a_", "a%", "A", ".x", "x.y", "a b", "é", "日本", "x.gz", "x.zst.age", "c", "d", strings.Repeat("L", 120),
 	// pattern metacharacters of GLOB / LIKE ESCAPE / regular expressions, and quotes
-	"a[b]", "a?", "a*", "[a-c]", "a\\b", "it's", "q\"q", "^a$", "a+", "{a,b}"}
+	"a[b]", "a?", "a*", "[a-c]", "a\\b", "it's", "q\"q", "^a$", "a+", "{a,b}",
+	// supplementary-plane characters (4-byte UTF-8), a combining sequence, the highest BMP character, DEL
+	"😀", "𝄞a", "a😀", "e\u0301", "\uffff", "\uffffa", "a\x7f", "~", "\u00a0",
+	// names that path arithmetic may take for relative steps
+	"..x", "...", "..a..", "a..", "-", "--x"}
 
 var Compressions = []string{"", "gzip", "parallelgzip", "lz4", "zstandard", "brotli", "bzip2", "parallelbzip2"}
 var Levels = []string{"fastest", "balanced", "smallest"}
@@ -325,10 +329,16 @@ func (g *Gen) draw1(t *rapid.T, mr *MRunner) Step {
 			s.Path = g.anyPath(t, m)
 		}
 		s.Path2 = g.anyPath(t, m)
+		if rapid.IntRange(0, 9).Draw(t, "into-own-subtree") == 0 {
+			s.Path2 = path.Join(s.Path, g.comp(t))
+			if rapid.Bool().Draw(t, "deeper") {
+				s.Path2 = path.Join(s.Path2, g.comp(t))
+			}
+		}
 	case "symlink":
 		s.Path = g.anyPath(t, m) // target
 		s.Path2 = g.under(t, m)  // link
-	case "reopen":
+	case "reopen", "rebuild":
 	case "arch_archive", "arch_update":
 		k := rapid.IntRange(1, 4).Draw(t, "k")
 		s.Replace = rapid.Bool().Draw(t, "replace")
